@@ -8,6 +8,7 @@ import random
 from dataclasses import dataclass, field
 
 INTS = ["a", "b", "c"]
+FAULT_STMTS = ["a = undefined_name", "b = 1 % 0", "xs.append(nope)", "c += 'x'", "d['q'] = zz"]
 
 
 @dataclass
@@ -96,7 +97,7 @@ class Gen:
         k = r.random()
         if self.p.faults and r.random() < self.p.faults:
             self.tag("fault:stmt")
-            return r.choice(["a = undefined_name", "b = 1 % 0", "xs.append(nope)", "c += 'x'", "d['q'] = zz"])
+            return r.choice(FAULT_STMTS)
         if k < 0.35:
             return f"{r.choice(INTS)} = {self.int_expr(scope)}"
         if k < 0.6:
@@ -264,7 +265,14 @@ class Gen:
             elif k < 0.52:
                 body.append("~ " + self.stmt(scope))
             elif k < 0.58:
-                body += ["@py:"] + [self.stmt(scope) for _ in range(r.randint(1, 3))] + ["@endpy"]
+                blk = [self.stmt(scope) for _ in range(r.randint(1, 3))]
+                # a failing block fails at its first statement (in-place effects of a half-run block
+                # are outside the model: see assumptions)
+                for k2, st2 in enumerate(blk):
+                    if st2 in FAULT_STMTS:
+                        blk = [st2] + blk[:k2] + blk[k2 + 1:]
+                        break
+                body += ["@py:"] + blk + ["@endpy"]
                 self.tag("pyblock")
             elif k < 0.58 + 0.2 * (self.p.conds > 0):
                 body += self.cond_block(scope, 1)
